@@ -172,3 +172,53 @@ def resolves(v, sel):
                 return False
             cur = cur[step]
     return True
+
+
+# ---- typed slots (shared by C02, C04 and C17) -----------------------------------------------------------------
+def typed_slots(j, version, key, path=()):
+    """walks a JSON instance along the frozen model: yields (path, value, property descriptor, owning class key, property name)
+    for every property position, recursively through lists, embedded objects, extensions, containers and bundle members"""
+    sp = model.spec(version)
+    c = sp.classes.get(key)
+    if c is None or not isinstance(j, dict):
+        return
+    for name, v in j.items():
+        p = c["properties"].get(name)
+        if p is None:
+            continue
+        here = path + (name,)
+        yield here, v, p, key, name
+        for r in _descend(v, p, version, here):
+            yield r
+
+
+def _descend(v, p, version, here):
+    sp = model.spec(version)
+    k = p["kind"]
+    if k == "list" and isinstance(v, list):
+        for i, x in enumerate(v):
+            yield here + (i,), x, p["of"], None, None
+            for r in _descend(x, p["of"], version, here + (i,)):
+                yield r
+    elif k == "embedded" and isinstance(v, dict):
+        for r in typed_slots(v, version, p["class"], here):
+            yield r
+    elif k == "extensions" and isinstance(v, dict):
+        for ek, ev in v.items():
+            if "extensions:" + ek in sp.classes:
+                for r in typed_slots(ev, version, "extensions:" + ek, here + (ek,)):
+                    yield r
+    elif k == "observables" and isinstance(v, dict):
+        for mk, mv in v.items():
+            if isinstance(mv, dict) and "observables:" + str(mv.get("type")) in sp.classes:
+                for r in typed_slots(mv, version, "observables:" + mv["type"], here + (mk,)):
+                    yield r
+    elif k == "stixobject" and isinstance(v, dict):
+        ver = "2.1" if v.get("spec_version") == "2.1" else version
+        kk = model.spec(ver).key_for_type(v.get("type"))
+        if kk:
+            for r in typed_slots(v, ver, kk, here):
+                yield r
+    elif k.startswith("opaque") and isinstance(v, dict):
+        for kk, vv in v.items():
+            yield here + (kk,), vv, {"kind": "string"}, None, kk
